@@ -50,10 +50,11 @@ const (
 	opParseTruncSig
 	opReinsertEdited
 	opParseNullRows
+	opDigestUpper
 	nC10Ops
 )
 
-var c10names = [...]string{"insert(valid+code)", "insert(valid,no-code)", "insert(invalid)", "calculate", "edit-doc", "sign(k1)", "sign(k2)", "unsign", "add-stamp", "alter-stamp", "add-link", "validate", "verify(k1)", "roundtrip", `parse(sigs:[""])`, "parse(sigs:[null])", "parse(sigs:[truncated])", "reinsert(extracted+edited)", "parse(null rows in links/stamps)"}
+var c10names = [...]string{"insert(valid+code)", "insert(valid,no-code)", "insert(invalid)", "calculate", "edit-doc", "sign(k1)", "sign(k2)", "unsign", "add-stamp", "alter-stamp", "add-link", "validate", "verify(k1)", "roundtrip", `parse(sigs:[""])`, "parse(sigs:[null])", "parse(sigs:[truncated])", "reinsert(extracted+edited)", "parse(null rows in links/stamps)", "digest-in-capitals"}
 
 type c10msig struct {
 	signer int
@@ -249,6 +250,18 @@ func c10run(c *Ctx, cx *c10env, seq []c10op, trans map[string]bool) (nontriv boo
 				}
 			}
 			err = nil
+			skipOutcome = true
+		case opDigestUpper:
+			// the header digest written in capital hex letters: another text, so it no
+			// longer matches (every place that evaluates "digest matches" compares texts)
+			if env.Head != nil && env.Head.Digest != nil {
+				if up := strings.ToUpper(env.Head.Digest.Value); up != env.Head.Digest.Value {
+					env.Head.Digest.Value = up
+					if m.hasDoc {
+						m.digestOK = false
+					}
+				}
+			}
 			skipOutcome = true
 		case opReinsertEdited:
 			// extract the document, edit it in place, hand the same pointer back
@@ -448,7 +461,7 @@ func c10run(c *Ctx, cx *c10env, seq []c10op, trans map[string]bool) (nontriv boo
 }
 
 func runC10(c *Ctx) {
-	c.R.Rule("operation sequences over the envelope API (19 operations incl. reinsert of the extracted, edited document, a parse with null rows in the header lists, insert of valid / valid-without-code / invalid documents, calculate, edit, sign with two keys, unsign, stamps, links, validate, verify, round trip, parse of a serialised form whose sigs holds \"\", null or a truncated JWS): exhaustive up to length 4 (quick) / 5 (thorough) from a new envelope, plus every history insert → a → sign → b → observer, plus random sequences of length 6-15; non-trivial = the history contains a sign, round-trip or parse step; distinct by sequence")
+	c.R.Rule("operation sequences over the envelope API (20 operations incl. the header digest rewritten in capital letters, reinsert of the extracted, edited document, a parse with null rows in the header lists, insert of valid / valid-without-code / invalid documents, calculate, edit, sign with two keys, unsign, stamps, links, validate, verify, round trip, parse of a serialised form whose sigs holds \"\", null or a truncated JWS): exhaustive up to length 4 (quick) / 5 (thorough) from a new envelope, plus every history insert → a → sign → b → observer, plus random sequences of length 6-15; non-trivial = the history contains a sign, round-trip or parse step; distinct by sequence")
 	c.R.Assume("reference model: outcome of each step is a function of (document present/valid for signing, digest matches, signatures present, signed headers contained); a failed Sign removes all signatures (as documented in Envelope.Sign)")
 	docs, err := c10docs()
 	if err != nil {
